@@ -123,6 +123,10 @@ func runCase(t *testing.T, model *hx.Model, cfg config, next func(s *sut, v *vie
 						break
 					}
 				}
+			case "tickmin":
+				op = fmt.Sprintf("tick %d", cfg.minInt)
+			case "tickretry":
+				op = fmt.Sprintf("tick %d", cfg.retryInt)
 			case "tickd":
 				op = fmt.Sprintf("tick %d", nextDeadline(summary, cfg.minInt))
 			}
